@@ -99,11 +99,16 @@ def conv_wrap(s):
     return 'if True:\n\n    ' + s.code.replace('\n', '\n    ') + '\n  \n# ' + (s.name if s.name is not None else '<verbatim>')
 
 
+def conv_mark(s):
+    """A wrapping converter that stays valid Python for an empty / whitespace-only `code`."""
+    return '# begin ' + (s.name if s.name is not None else '<verbatim>') + '\n' + s.code + '\n# end'
+
+
 def conv_empty(s):
     return ''
 
 
-CONVERTERS = {'default': None, 'code': conv_code, 'wrap': conv_wrap, 'empty': conv_empty}
+CONVERTERS = {'default': None, 'code': conv_code, 'wrap': conv_wrap, 'mark': conv_mark, 'empty': conv_empty}
 
 
 # ---- program mutators (AST level) -------------------------------------------------------------------------------
